@@ -1,5 +1,6 @@
 import Hcl.Proofs.CheckSpec
 import Hcl.Proofs.EvalCorrect
+import Hcl.Proofs.ActionsVerdict
 
 /-!
 # C08 — acceptance is decided exactly by the documented width rules
@@ -35,3 +36,25 @@ example : Spec.typeOf {} exΓ8 (fun _ => false) (.bin .add (.wire "a") (.wire "b
 example : Spec.typeOf {} exΓ8 (fun _ => false) (.slice (.wire "a") 2 8) = some (.bits 6) := by decide
 example : Spec.typeOf {} exΓ8 (fun _ => false) (.slice (.wire "a") 2 9) = none := by decide
 example : Spec.typeOf {} exΓ8 (fun _ => false) (.concat (.wire "a") (.const ⟨1, .unlimited⟩)) = none := by decide
+
+/-! ### for every accepted program -/
+
+/-- **C08 for every accepted program**: whatever the iteration order, every assignment `n = e` of an accepted program
+    obeys the rules: in the width table of the program (declared wires, register signals, built-in wires, constants)
+    the target has a width, the documented rules give the expression a width, and the two are equal or the
+    expression is unsized.  Read the other way: a program in which some assignment breaks a width rule is never accepted. -/
+theorem C08_accepted (fl : Flags) (cls : CharClass) (o : Orders) (stmts : List Stmt) (p : Program)
+    (ho : OrdersOK o) (hwf : StmtsWF stmts) (h : Program.new fl cls o y86FixedFunctions stmts = .ok p) :
+    ∀ n e, (step1Of stmts).assignments.get? n = some e →
+      ∃ tw ew, (finalWires (step1Of stmts) p.constants (step3Of fl cls (step1Of stmts) p.constants)).get? n = some tw ∧
+        Spec.typeOf fl (finalWires (step1Of stmts) p.constants (step3Of fl cls (step1Of stmts) p.constants)).toCtx
+          (alwaysTrue fl p.constants.toEnv) e = some ew ∧
+        Spec.compatible tw ew = true := by
+  obtain ⟨s1, c, s3, k, hyp, _, hact, hpc, _, _, e1, _, e3, _, _, _⟩ := Program_new_decompose' fl cls o stmts p hwf h
+  subst e1
+  subst hpc
+  subst e3
+  intro n e hne
+  obtain ⟨w, ew, h1, h2, h3⟩ := assignmentsToActions_rules fl o _ _ _ _ _ _ p.actions ho y86Fixed_table hyp.s1inv.aKeys hact n e hne
+  refine ⟨w, ew, h1, (C08_accept_iff_rules fl _ _ e ew).mp h2, ?_⟩
+  rw [← C08_target_rule]; exact h3
